@@ -776,7 +776,15 @@ def run_item(item: dict) -> dict:
     for f_ in (list(pool.get("abort_family", [])) + [x for x in fb if x not in pool.get("abort_family", [])][:2]):
         for o_ in (others[:2] + list(pool.get("switch_family", []))):
             if o_ != f_:
-                hists.append((seeds.H(pool_seed, "fb", f_, o_), [{"k": "D", "j": o_}, {"k": "D", "j": f_}, {"k": "D", "j": o_}]))
+                hists.append((seeds.H(pool_seed, "fb", f_, o_), [{"k": "A", "mode": "reuse-dead"}, {"k": "D", "j": o_}, {"k": "D", "j": f_}, {"k": "G"}, {"k": "D", "j": o_}]))
+    # every look-alike routine set, collected, then every small switch-only routine set (the memo of the search for a
+    # common end is only ever read without a preceding clear by the switch pass)
+    sw = list(pool.get("switch_family", []))
+    for fam in pool.get("families", []):
+        for x_ in fam:
+            for z_ in sw:
+                if srng.random() < 0.5:
+                    hists.append((seeds.H(pool_seed, "famsw", x_, z_), [{"k": "A", "mode": "reuse-dead"}, {"k": "D", "j": x_}, {"k": "G"}, {"k": "D", "j": z_}]))
     # "the same input repeated": the very same op objects decompiled again, by the same or by the other decompiler
     rdocs = list(range(len(pool["docs"])))
     srng.shuffle(rdocs)
